@@ -898,7 +898,7 @@ pub fn run(tier: &str) -> i32 {
         dev: false,
         all_pairs: !quick,
         extra_ends: if quick { 24 } else { 64 },
-        nruns: if quick { 1500 } else { 40_000 },
+        nruns: if quick { 1500 } else { 100_000 },
         max_players: if quick { 4 } else { 8 },
     };
     explore(&mut ev, vs, &plan, &mut logfold);
@@ -1005,7 +1005,7 @@ fn explore(ev: &mut Evidence, vs: u64, plan: &Plan, logfold: &mut Fold) {
             continue;
         }
         // window sweep
-        let all_pairs = plan.all_pairs && (name == "0-player" || name == "1-player");
+        let all_pairs = plan.all_pairs && (name == "0-player" || name == "1-player" || name == "2-player");
         let extra = plan.extra_ends;
         if plan.dev && name == "2-player" {
             continue; // dev child: the two cheap fixed scenarios only
